@@ -514,12 +514,19 @@ pub fn run(ctx: &Ctx) -> i32 {
     let nsizes: u16 = if small { ctx.args.ex_u64("sizes", 6) as u16 } else { 300 };
     let refs = REFS.get_or_init(|| Arc::new(Reference::new((10..10 + nsizes).chain(if small { 0..0 } else { FILL_BASE..FILL_BASE + 200 })))).clone();
     let cap = vc::capacity();
+    // a replay of a sequential-history case (kinds "big", "hot", "in-use") re-runs those histories only
+    let mut only_hist = false;
     if let Some(p) = &ctx.args.replay {
         let j = parse_json(&std::fs::read_to_string(p).expect("replay file")).expect("json");
         let c = j.get("case").unwrap();
         ctx.eval(1);
         ctx.nontrivial(1);
         ctx.nontrivial(2);
+        only_hist = matches!(c.st("kind"), "big" | "hot" | "in-use");
+    }
+    if let (Some(p), false) = (&ctx.args.replay, only_hist) {
+        let j = parse_json(&std::fs::read_to_string(p).expect("replay file")).expect("json");
+        let c = j.get("case").unwrap();
         if c.st("kind") == "schedule" {
             let s = Schedule::from_json(c);
             let mut st = SchedStats::default();
@@ -540,7 +547,7 @@ pub fn run(ctx: &Ctx) -> i32 {
     let shard = ctx.args.ex_u64("shard", 0) as usize;
     let t_a = std::time::Instant::now();
     // (a) controlled schedules
-    if !small {
+    if !small && !only_hist {
         let scheds = all_schedules(ctx.args.quick());
         let mut distinct_orders = std::collections::HashSet::new();
         for (si, s) in scheds.iter().enumerate() {
@@ -596,9 +603,11 @@ pub fn run(ctx: &Ctx) -> i32 {
     let t_b = std::time::Instant::now();
     // (b) stress rounds
     let mut tot = StressOut { requests: 0, snapshots: 0, max_size: 0 };
-    let mut ran_stress = false;
+    let mut ran_stress = only_hist;
     let mut expect_max = 0usize;
-    let rounds: Vec<(usize, usize, Vec<u16>, bool)> = if small {
+    let rounds: Vec<(usize, usize, Vec<u16>, bool)> = if only_hist {
+        vec![]
+    } else if small {
         let nt = ctx.args.ex_u64("threads", 3) as usize;
         let per = ctx.args.ex_u64("per_thread", 4) as usize;
         vec![(nt, per, (10..10 + nsizes).collect(), false)]
@@ -767,7 +776,7 @@ pub fn run(ctx: &Ctx) -> i32 {
         J::obj(vec![("first_lookup_hit", J::i(ev[6] - ev0[6])), ("first_lookup_miss", J::i(ev[7] - ev0[7])), ("lost_race_second_lookup_hit", J::i(ev[8] - ev0[8])), ("insert", J::i(ev[9] - ev0[9])), ("evict", J::i(ev[10] - ev0[10]))]),
     );
     ctx.cov("yield_hook_calls_between_the_critical_sections", J::i(HOOK_CALLS[1].load(Relaxed) + HOOK_CALLS[2].load(Relaxed)));
-    if !small && ran_stress && ctx.n_violations() == 0 {
+    if !small && ran_stress && !only_hist && ctx.n_violations() == 0 {
         ctx.floor("stress_lost_races_observed_by_hook_counter", ev[8] - ev0[8], 1);
         if tot.max_size != expect_max {
             ctx.inconclusive(format!("stress never filled the cache as far as its request mix allows (max {} of {expect_max})", tot.max_size));
